@@ -249,13 +249,13 @@ pub fn run(ctx: &Ctx, rep: &mut Report) {
         }
     }
     let mut rng = gen::shard_rng(ctx.seed, ctx.shard, 1);
-    for p in gen::ep_family(&mut rng, ctx.n(20_000, 2_000_000) as usize).iter() {
+    for p in gen::ep_family(&mut rng, ctx.n(100_000, 4_000_000) as usize).iter() {
         check_position(p, rng.gen_bool(0.2), rep);
         rep.count("family_en_passant", 1);
     }
     // random play and random sampling
-    let n_play = ctx.n(120_000, 20_000_000);
-    let n_sample = ctx.n(120_000, 20_000_000);
+    let n_play = ctx.n(1_500_000, 40_000_000);
+    let n_sample = ctx.n(1_000_000, 40_000_000);
     let mut done = 0;
     while done < n_play && ctx.time_left() {
         let start = if rng.gen_bool(0.5) { Pos::start() } else { corpus[rng.gen_range(0..corpus.len())].clone() };
